@@ -306,6 +306,9 @@ func checkC19(P *Prog, r *Result) {
 		}
 	}
 	r.floor("C19/validate-write-sites", 5)
+	// a nil destination pointer gets a fresh allocation, never a pointer taken from the input (C03's rule):
+	// otherwise defaults, coerced values and transform results are written into the caller's data
+	shareRule(P, r, checkC03, "C03/pointer-alloc", nil, "C19/dest-not-aliased-to-input", 1)
 }
 
 func destWriteName(w writeSite) string {
